@@ -748,6 +748,21 @@ def pending_flatten_risky(pp, e, seen=None):
     return any(pending_flatten_risky(pp, x, seen) for x in corr_parse._children(pp, e))
 
 
+def unstreamlined_targets(prog):
+    """every variable a program uses in a position that is never streamlined (stop_on / fail_on / SkipTo ignore):
+    also those of the BASE program (gen.py ManyStop / SkipTo), which compose_steps' own `targets` does not list"""
+    out = []
+    for st in prog:
+        op, a = st[1], st[2:]
+        if op in ("ZeroOrMore", "OneOrMore") and len(a) > 1 and a[1] is not None:
+            out.append(a[1])
+        elif op == "[:]":
+            out.append(a[2])
+        elif op == "SkipTo" and len(a) > 1 and isinstance(a[1], dict):
+            out += [a[1][k] for k in ("fail_on", "ignore") if a[1].get(k)]
+    return [t for t in dict.fromkeys(out) if isinstance(t, str)]
+
+
 def pool_job(job):
     """worker: the same program executed in three schedules; fingerprints of every member must coincide"""
     pp = common.import_pyparsing()
@@ -760,7 +775,7 @@ def pool_job(job):
         out["skip"] = f"build:{type(ex).__name__}"
         return out
     try:
-        if any(pending_flatten_risky(pp, b0.env[t]) for t in job["targets"] if t in b0.env):
+        if any(pending_flatten_risky(pp, b0.env[t]) for t in list(job["targets"]) + unstreamlined_targets(prog) if t in b0.env):
             out["skip"] = "region:streamline_changes_unstreamlined_user"
             return out
     except RecursionError:
